@@ -50,7 +50,7 @@ type c13Scenario struct {
 	LLBreak     string `json:"ll_break,omitempty"`
 }
 
-var fmp4Ops = []string{"truncate", "truncate-box", "flip", "garbage", "empty", "zero-dur", "huge-dur", "huge-base", "drop-lead", "unknown-track", "dup-track", "no-samples", "swap-tracks"}
+var fmp4Ops = []string{"drop-leading-track", "drop-leading-track", "truncate", "truncate-box", "flip", "garbage", "empty", "zero-dur", "huge-dur", "huge-base", "drop-lead", "unknown-track", "dup-track", "no-samples", "swap-tracks"}
 var initOps = []string{"truncate", "truncate-box", "flip", "garbage", "empty", "many-tracks", "dup-ids", "no-tracks", "unsupported-only", "shift-ids", "zero-timescale", "huge-timescale"}
 var tsOps = []string{"truncate", "truncate-packet", "flip", "garbage", "empty", "drop-lead-pid", "no-tables", "bad-adts", "bad-adts"}
 var playlistOps = []string{"bytes", "truncate", "flip", "empty", "no-segments", "huge-numbers", "bad-uri", "map-without-uri"}
@@ -611,6 +611,27 @@ func execC13(sc c13Scenario) core.Outcome {
 				continue
 			}
 			u := bp.SegURIs[m.Index%len(bp.SegURIs)]
+			if m.Op == "drop-leading-track" {
+				// the fragments of the stream's leading track are removed from one segment, the other
+				// tracks stay
+				var parts fmp4.Parts
+				if err := parts.Unmarshal(files[u]); err == nil && len(parts) > 0 {
+					for _, p := range parts {
+						var keep []*fmp4.PartTrack
+						for _, t := range p.Tracks {
+							if t.ID != bp.LeadTrack+1 {
+								keep = append(keep, t)
+							}
+						}
+						p.Tracks = keep
+					}
+					var w seekablebuffer.Buffer
+					if err := parts.Marshal(&w); err == nil {
+						files[u] = append([]byte{}, w.Bytes()...)
+					}
+				}
+				continue
+			}
 			if m.Op == "bad-adts" {
 				// not in the first segment the client reads: track discovery parses its first frame
 				if sc.Stream.Container != "mpegts" || len(bp.SegURIs) < 2 {
